@@ -246,23 +246,23 @@ func (e *Engine) checkProperty(prop, tier, verif string, t0 time.Time) int {
 	}
 	trusted, assumptions := e.trustedBase(run)
 	cov := map[string]any{
-		"obligations":            total,
-		"discharged":             discharged,
-		"checker_cmd":            fmt.Sprintf("govc check -property %s -tier %s (VCs generated from go/ssa of %s; solvers z3 4.8.12, z3-new 5.1.0, cvc5 1.0.3)", prop, tier, e.repo),
-		"trusted_base":           trusted,
-		"functions_under_contract": fnames,
+		"obligations":               total,
+		"discharged":                discharged,
+		"checker_cmd":               fmt.Sprintf("govc check -property %s -tier %s (VCs generated from go/ssa of %s; solvers z3 4.8.12, z3-new 5.1.0, cvc5 1.0.3)", prop, tier, e.repo),
+		"trusted_base":              trusted,
+		"functions_under_contract":  fnames,
 		"distinct_obligation_names": len(names),
 		"claimed_obligation_names":  len(claims),
-		"claimed_missing":        missing,
-		"solver_wins":            run.Stats.Wins,
-		"discharged_by_cache":    countCache(run),
-		"solver_seconds":         run.Stats.Seconds,
-		"samples":                samples,
-		"unverified":             unverified,
-		"known_findings_matched": knownMatched,
-		"per_obligation_timeout_s": e.opts.TimeoutS,
-		"vacuity":                "reach obligations: every return / loop-body end reached by some path must have a satisfiable path condition (unsat => violation)",
-		"arithmetic":             "mathematical integers; every arithmetic result assumed within its Go type range (overflow not proved); int<->uint conversions exact (two's complement wrap)",
+		"claimed_missing":           missing,
+		"solver_wins":               run.Stats.Wins,
+		"discharged_by_cache":       countCache(run),
+		"solver_seconds":            run.Stats.Seconds,
+		"samples":                   samples,
+		"unverified":                unverified,
+		"known_findings_matched":    knownMatched,
+		"per_obligation_timeout_s":  e.opts.TimeoutS,
+		"vacuity":                   "reach obligations: every return / loop-body end reached by some path must have a satisfiable path condition (unsat => violation)",
+		"arithmetic":                "mathematical integers; every arithmetic result assumed within its Go type range (overflow not proved); int<->uint conversions exact (two's complement wrap)",
 	}
 	if total == 0 {
 		// nothing to claim: keep the file schema-valid but make the emptiness visible
@@ -404,9 +404,24 @@ func (e *Engine) trustedBase(run *Run) ([]string, []string) {
 			for _, cl := range ab.Assumes {
 				trusted = append(trusted, fmt.Sprintf("assume (result of call %s #%d) in %s: %s", ab.Callee, ab.Ordinal, k, truncate(cl.Src, 200)))
 			}
+			for _, cl := range ab.AssumesHere {
+				trusted = append(trusted, fmt.Sprintf("assume (before call %s #%d) in %s: %s", ab.Callee, ab.Ordinal, k, truncate(cl.Src, 200)))
+			}
 		}
 		if fc.StartLoop > 0 {
 			trusted = append(trusted, fmt.Sprintf("%s verified from loop #%d on only (prefix skipped; the loop invariant is assumed at its first entry)", k, fc.StartLoop))
+		}
+	}
+	for k, tc := range e.ct.Types {
+		for _, cl := range tc.Received {
+			trusted = append(trusted, "assume (every "+k+" received from a channel): "+truncate(cl.Src, 200))
+		}
+	}
+	for k := range e.ct.Funcs {
+		if strings.Contains(k, "$") {
+			if fn := e.lookupFunc(k); fn != nil && fn.Synthetic == "range-over-func yield" {
+				trusted = append(trusted, "range-over-func body "+k+": the iterator calls the loop body only while the loop is active (go/ssa state variable is 0 on entry); the loop's own induction is not part of the obligations")
+			}
 		}
 	}
 	trusted = append(trusted, e.ifaceCoverage()...)
